@@ -219,15 +219,15 @@ def jackRemap (dev : Dev) (c : Ctx) (jack assoc seq : Nat) : Ctx × Res Unit :=
 
 /-! ### PCM chunking and the transfer loop -/
 
-/-- `frames.chunks(period)` (`period > 0` is guaranteed by `pcm_set_params`) -/
+/-- `frames.chunks(period)` with explicit fuel (structural, so that it computes in the kernel) -/
+def chunksAux (period : Nat) : Nat → Bytes → List Bytes
+  | 0, _ => []
+  | fuel + 1, l => if l = [] then [] else l.take period :: chunksAux period fuel (l.drop period)
+
+/-- `frames.chunks(period)`; `period > 0` is guaranteed by `pcm_set_params` (Rust's `chunks(0)`
+panics; the driver cannot reach it) -/
 def pcmChunks (period : Nat) (frames : Bytes) : List Bytes :=
-  if h : period = 0 ∨ frames = [] then []
-  else frames.take period :: pcmChunks period (frames.drop period)
-termination_by frames.length
-decreasing_by
-  have : frames ≠ [] := fun e => h (Or.inr e)
-  have : 0 < frames.length := List.length_pos_iff.mpr this
-  simp only [List.length_drop]; omega
+  if period = 0 then [] else chunksAux period frames.length frames
 
 /-- what the device does in one busy-wait iteration -/
 inductive Act
@@ -333,6 +333,47 @@ def xferStart (q : Q) (period : Nat) (frames : Bytes) (script : List Act) : XS :
 def xferFuel (period : Nat) (frames : Bytes) (script : List Act) : Nat :=
   script.length + 2 * (pcmChunks period frames).length + 4
 
+/-- summary of a blocking transfer -/
+structure XferOut where
+  res : XRes
+  x : XS
+
+/-- `pcm_xfer` -/
+def pcmXfer (dev : Dev) (c : Ctx) (stream : Nat) (frames : Bytes) (script : List Act) : Ctx × Res XferOut :=
+  withSetUp dev c fun c =>
+    -- `self.pcm_parameters[stream_id as usize]`
+    match c.st.params[stream]? with
+    | none => (c, .panic)
+    | some p =>
+      if !p.setup then (c, .err .ioError)
+      else
+        let (x, r) := xferLoop stream (xferFuel p.periodBytes frames script) (xferStart c.st.tx p.periodBytes frames script)
+        ({ c with st := { c.st with tx := x.q } }, .ok ⟨r, x⟩)
+
+/-- `pcm_xfer_nb`: returns the ordinal naming the token -/
+def pcmXferNb (dev : Dev) (c : Ctx) (stream : Nat) (frames : Bytes) : Ctx × Res Nat :=
+  withSetUp dev c fun c =>
+    match c.st.params[stream]? with
+    | none => (c, .panic)
+    | some p =>
+      if !p.setup then (c, .err .ioError)
+      -- `assert_eq!(period_size, frames.len())`
+      else if p.periodBytes ≠ frames.length then (c, .panic)
+      else match add c.st.tx [encXferHdr stream ++ frames] [8] with
+        | .error e => (c, .err (.q e))
+        | .ok (q', tok) =>
+          ({ c with st := { c.st with tx := q', nb := (c.st.nbCount, tok) :: c.st.nb, nbCount := c.st.nbCount + 1 } },
+           .ok c.st.nbCount)
+
+/-- `pcm_xfer_ok` (the harness names tokens by the ordinal of the `pcm_xfer_nb` call) -/
+def pcmXferOk (s : St) (ord : Nat) : St × Res Unit :=
+  match s.nb.find? (·.1 == ord) with
+  | none => (s, .panic)   -- `assert!(self.token_buf.contains_key(&token))`
+  | some (o, tok) =>
+    match popUsed s.tx tok with
+    | .error e => (s, .err (.q e))
+    | .ok (q', _) => ({ s with tx := q', nb := s.nb.filter (·.1 != o) }, .ok ())
+
 /-! ### line protocol -/
 
 def reqsStr (l : List Bytes) : String :=
@@ -400,50 +441,18 @@ def handle (s : St) (op : String) (a : Proto.Args) : St × String :=
   | "features" => fin id (getter dev c0 (a.nat "stream") fun i => toString i.features)
   | "channels" => fin id (getter dev c0 (a.nat "stream") fun i => s!"{i.chMin}..={i.chMax}")
   | "xfer" =>
-    let stream := a.nat "stream"
-    let frames := framesOfArgs a
     let script := if (a.str "script" "-") == "-" then [] else ((a.str "script").splitOn ",").map parseAct
-    let r : Ctx × Res String := withSetUp dev c0 fun c =>
-      match c.st.params[stream]? with
-      | none => (c, .panic)
-      | some p =>
-        if !p.setup then (c, .err .ioError)
-        else
-          let (x, r) := xferLoop stream (xferFuel p.periodBytes frames script) (xferStart c.st.tx p.periodBytes frames script)
-          let info := s!"submitted={x.submitted} delivered={x.delivered.length} fnv={deliveredDigest x.delivered} shared={sharedBuffers x.q}"
-          let c := { c with st := { c.st with tx := x.q } }
-          match r with
-          | .ok => (c, .ok s!"result=Ok {info}")
-          | .err e => (c, .ok s!"result={e.str} {info}")
-          | .panic => (c, .panic)
-          | .fuel => (c, .ok s!"result=FUEL {info}")
-    fin id r
-  | "xfer_nb" =>
-    let stream := a.nat "stream"
-    let frames := framesOfArgs a
-    let r : Ctx × Res String := withSetUp dev c0 fun c =>
-      match c.st.params[stream]? with
-      | none => (c, .panic)
-      | some p =>
-        if !p.setup then (c, .err .ioError)
-        else if p.periodBytes ≠ frames.length then (c, .panic)
-        else match add c.st.tx [encXferHdr stream ++ frames] [8] with
-          | .error e => (c, .err (.q e))
-          | .ok (q', tok) =>
-            ({ c with st := { c.st with tx := q', nb := (c.st.nbCount, tok) :: c.st.nb, nbCount := c.st.nbCount + 1 } },
-             .ok s!"tok={c.st.nbCount}")
-    fin id r
+    fin (fun (o : XferOut) =>
+        let r := match o.res with | .ok => "Ok" | .err e => e.str | .panic => "PANIC" | .fuel => "FUEL"
+        s!"result={r} submitted={o.x.submitted} delivered={o.x.delivered.length} fnv={deliveredDigest o.x.delivered} shared={sharedBuffers o.x.q}")
+      (match pcmXfer dev c0 (a.nat "stream") (framesOfArgs a) script with
+       | (c, .ok o) => if o.res == .panic then (c, .panic) else (c, .ok o)
+       | r => r)
+  | "xfer_nb" => fin (fun (n : Nat) => s!"tok={n}") (pcmXferNb dev c0 (a.nat "stream") (framesOfArgs a))
   | "dev_complete" =>
     -- device op: complete the `idx`-th outstanding tx chain with `status`
     ({ s with tx := complete s.tx (a.nat "idx") (statusBytes (a.nat "status")) 8 }, "ok")
-  | "xfer_ok" =>
-    -- the harness names tokens by the ordinal of the `pcm_xfer_nb` call
-    match s.nb.find? (·.1 == a.nat "tok") with
-    | none => (s, "=> panic")
-    | some (ord, tok) =>
-      match popUsed s.tx tok with
-      | .error e => (s, s!"=> err {e.str}")
-      | .ok (q', _) => ({ s with tx := q', nb := s.nb.filter (·.1 != ord) }, "=> ok")
+  | "xfer_ok" => let r := pcmXferOk s (a.nat "tok"); (r.1, "=> " ++ resStr unit r.2)
   | _ => (s, "bad-op")
 
 end VirtioVerif.Sound
